@@ -1170,5 +1170,8 @@ def run(rep, program: Program, tier: str) -> None:
     rep.isolate(rule_r8, rep, program)
     rep.isolate(rule_r9, rep, program)
     rep.isolate(rule_r10, rep, program)
+    from . import stateproto
+
+    rep.isolate(stateproto.rule, rep, program, tier, PROP, "R11", "transparent")
     rep.extra["callsites_resolved"] = se.resolved_calls
     rep.extra["callsites_unresolved"] = len(se.unresolved)
